@@ -13,15 +13,34 @@ import (
 // ConcCase is the concurrent part of C17: G goroutines each run Iters rounds of
 // {ArrangeBlock, stamp the block with the own id, verify, FreeBlock}, holding at most Hold blocks at a time
 // and keeping Keep of them at the end. Nothing in the oracle depends on the schedule.
+//
+// Reopened allocators and the first Available() call of an allocator's life: with Pre > 0 the bytes get a history
+// first - an allocator opened on them makes Pre ArrangeBlock calls and frees most of these blocks again: it keeps at most
+// G*Hold of them, spread evenly over the Pre indexes, minus every PreFree-th of those (PreFree < 2: none) - and the allocator
+// under test is then opened on the SAME bytes (a reopen); the blocks that are allocated at that point are the initial
+// holdings of the goroutines (at most Hold each), so the concurrent phase begins with FreeBlock as well as ArrangeBlock calls. With Late > 0 nobody calls
+// Available() on the allocator under test - not the workers, not the bookkeeping of the harness - until the workers
+// have together completed Late-1 ArrangeBlock/FreeBlock calls; then an extra goroutine (the observer) makes the FIRST
+// Available() call while the workers go on; the workers' own Available() checks begin when that call has returned.
+// With ParkSeg > 0 (needs Late > 0) the interleaving is forced through the storage: the workers are held between two
+// rounds, the observer makes its call, and if during that call the header of a segment >= ParkSeg is read from the
+// Buffer, that read is parked (the Buffer of the case is a wrapper around the in-memory one) while the workers are
+// let go and complete ParkOps more calls; an implementation whose Available() does not read the storage is simply
+// not parked and the workers are let go when the call has returned.
 type ConcCase struct {
-	BS    int  `json:"bs"`
-	Segs  int  `json:"segs"`
-	Over  int  `json:"over"`
-	G     int  `json:"g"`
-	Iters int  `json:"iters"`
-	Hold  int  `json:"hold"`
-	Keep  int  `json:"keep"`
-	Yield bool `json:"yield"`
+	BS      int  `json:"bs"`
+	Segs    int  `json:"segs"`
+	Over    int  `json:"over"`
+	G       int  `json:"g"`
+	Iters   int  `json:"iters"`
+	Hold    int  `json:"hold"`
+	Keep    int  `json:"keep"`
+	Yield   bool `json:"yield"`
+	Pre     int  `json:"pre,omitempty"`
+	PreFree int  `json:"prefree,omitempty"`
+	Late    int  `json:"late,omitempty"`
+	ParkSeg int  `json:"parkseg,omitempty"`
+	ParkOps int  `json:"parkops,omitempty"`
 }
 
 // ConcInfo classifies a concurrent case.
@@ -30,6 +49,15 @@ type ConcInfo struct {
 	Exhausted int64
 	Arranged  int64
 	MultiSeg  bool
+	Reopened  int  // blocks that were allocated when the allocator under test was opened (Pre > 0)
+	ReopenedN int  // ... segments holding one of them
+	Late      bool // the first Available() call was left to the observer
+	LateRaced bool // ... and workers were still running when it was made
+	LateOps   int64
+	AfterOps  int64 // ArrangeBlock/FreeBlock calls completed after the first Available() call had begun
+	Held      bool  // the workers were held between two rounds when the call began (ParkSeg > 0)
+	Parked    bool  // a header read made during the first Available() call was parked
+	ParkedOps int64 // calls the workers completed while it was parked
 }
 
 func (i ConcInfo) Classes() []string {
@@ -43,8 +71,55 @@ func (i ConcInfo) Classes() []string {
 	if i.MultiSeg {
 		c = append(c, "segments_ge_2")
 	}
+	if i.Reopened > 0 {
+		c = append(c, "concurrent_on_reopened_allocator_with_allocated_blocks")
+		if i.ReopenedN >= 2 {
+			c = append(c, "concurrent_on_reopened_allocator_with_allocated_blocks_in_ge_2_segments")
+		}
+	}
+	if i.Late {
+		c = append(c, "concurrent_first_available_call_left_to_observer")
+		if i.LateRaced && i.AfterOps > 0 {
+			c = append(c, "concurrent_first_available_call_overlapped_by_arrange_free")
+			if i.Reopened > 0 && i.MultiSeg {
+				c = append(c, "concurrent_first_available_call_overlapped_on_reopened_multi_segment_allocator")
+			}
+		} else {
+			c = append(c, "concurrent_first_available_call_was_quiet")
+		}
+		if i.Held {
+			c = append(c, "concurrent_first_available_call_with_workers_held")
+		}
+		if i.Parked {
+			c = append(c, "concurrent_first_available_call_header_read_parked")
+		}
+	}
 	return c
 }
+
+// gateBuf is the Buffer of the concurrent cases: the in-memory buffer of the library, plus one schedule point - when
+// armed, the next read of a segment header (the first block of a segment) of a segment >= parkSeg calls park on the
+// calling goroutine before it is served. A storage may be slow at any call; the documentation of Buffer allows
+// concurrent requests.
+type gateBuf struct {
+	in      cbytes.Buffer
+	segSize int64
+	parkSeg int64
+	armed   atomic.Bool
+	park    func()
+}
+
+func (g *gateBuf) Buffer(offs int64, size int) ([]byte, error) {
+	if g.armed.Load() && offs%g.segSize == 0 && offs/g.segSize >= g.parkSeg && g.armed.CompareAndSwap(true, false) {
+		g.park()
+	}
+	return g.in.Buffer(offs, size)
+}
+
+func (g *gateBuf) Close() error       { return g.in.Close() }
+func (g *gateBuf) Size() int64        { return g.in.Size() }
+func (g *gateBuf) Grow(n int64) error { return g.in.Grow(n) }
+func (g *gateBuf) String() string     { return fmt.Sprint(g.in) }
 
 func concStamp(g, it, idx, j int) byte {
 	x := uint32(g)*0x9E3779B1 ^ uint32(it)*0x85EBCA6B ^ uint32(idx)*0xC2B2AE35
@@ -67,12 +142,62 @@ func runConcurrent(c ConcCase, info *ConcInfo) *vstat.Violation {
 	size := int64(c.Segs)*segSize + int64(max(c.Over, 0))%segSize
 	count := c.Segs * c.BS * 8
 	geo := fmt.Sprintf("bs=%d segments=%d size=%d G=%d iters=%d hold=%d keep=%d", c.BS, c.Segs, size, c.G, c.Iters, c.Hold, c.Keep)
-	buf := cbytes.NewInMemBytes(int(size))
+	if c.Pre > 0 {
+		geo += fmt.Sprintf(" reopened after %d ArrangeBlock calls of which at most G*hold evenly spread ones were kept (PreFree=%d)", c.Pre, c.PreFree)
+	}
+	if c.Late > 0 {
+		geo += fmt.Sprintf(" first Available() call made by an observer after %d worker calls", c.Late-1)
+		if c.ParkSeg > 0 {
+			geo += fmt.Sprintf(", workers held, header reads of segments >= %d made during that call parked for %d worker calls", c.ParkSeg, c.ParkOps)
+		}
+	}
+	mem := cbytes.NewInMemBytes(int(size))
+	base, _ := mem.Buffer(0, int(size))
+	buf := &gateBuf{in: mem, segSize: segSize, parkSeg: int64(max(c.ParkSeg, 1))}
+	// the history of the bytes before the allocator under test is opened on them
+	initial := make([][]held, c.G+1)
+	if c.Pre > 0 {
+		a0, err := cbytes.NewBlocks(c.BS, buf, false)
+		if err != nil || a0 == nil {
+			return vstat.V("blocks:ctor-rejects-valid", "NewBlocks(%s) failed: %v", geo, err)
+		}
+		segsSeen := map[int]bool{}
+		n, quota, chosen := min(c.Pre, count), c.G*c.Hold, 0
+		var back []int // arranged first, freed again when all n calls have been made (a block freed at once would be handed out again)
+		for k, g := 0, 1; k < n; k++ {
+			idx, err := a0.ArrangeBlock()
+			if err != nil || idx < 0 || idx >= count {
+				return vstat.V("blocks:arrange-error", "[%s] preparation: ArrangeBlock #%d on the fresh allocator returned (%d, %v)", geo, k, idx, err)
+			}
+			// kept: at most G*Hold of the n blocks, spread evenly over them (so over the segments they reach), minus every PreFree-th
+			give := (k+1)*quota/n > k*quota/n
+			if give {
+				chosen++
+				give = !(c.PreFree >= 2 && chosen%c.PreFree == 0)
+			}
+			for t := 0; give && t < c.G && len(initial[g]) >= c.Hold; t++ { // the next goroutine that can hold one more
+				g = g%c.G + 1
+			}
+			if !give || len(initial[g]) >= c.Hold {
+				back = append(back, idx)
+				continue
+			}
+			initial[g] = append(initial[g], held{idx, -1 - k})
+			segsSeen[idx/(c.BS*8)] = true
+			info.Reopened++
+			g = g%c.G + 1
+		}
+		for _, idx := range back {
+			if err := a0.FreeBlock(idx); err != nil {
+				return vstat.V("blocks:free-rejected", "[%s] preparation: FreeBlock(%d) of a block arranged before failed with %v", geo, idx, err)
+			}
+		}
+		info.ReopenedN = len(segsSeen)
+	}
 	b, err := cbytes.NewBlocks(c.BS, buf, false)
 	if err != nil || b == nil {
 		return vstat.V("blocks:ctor-rejects-valid", "NewBlocks(%s) failed: %v", geo, err)
 	}
-	base, _ := buf.Buffer(0, int(size))
 	offs, v := blockGeometry(b, base, c.BS, c.Segs, count, "NewBlocks("+geo+")")
 	if v != nil {
 		return v
@@ -89,7 +214,25 @@ func runConcurrent(c ConcCase, info *ConcInfo) *vstat.Violation {
 		first     *vstat.Violation
 		exhausted atomic.Int64
 		arranged  atomic.Int64
+		// the first Available() call (Late > 0)
+		availSeen atomic.Bool  // the first call has returned: from now on everybody may call Available()
+		ops       atomic.Int64 // ArrangeBlock/FreeBlock calls completed by the workers
+		running   atomic.Int32 // workers that have not finished
+		pause     atomic.Bool  // workers wait between two rounds
+		idle      atomic.Int32 // workers waiting
+		resume    = make(chan struct{})
 	)
+	availSeen.Store(c.Late <= 0)
+	running.Store(int32(c.G))
+	for g := 1; g <= c.G; g++ {
+		for _, h := range initial[g] {
+			owner[h.idx].Store(int32(g))
+			blk := base[offs[h.idx] : offs[h.idx]+int64(c.BS)]
+			for j := range blk {
+				blk[j] = concStamp(g, h.it, h.idx, j)
+			}
+		}
+	}
 	fail := func(v *vstat.Violation) {
 		mu.Lock()
 		if first == nil {
@@ -104,12 +247,13 @@ func runConcurrent(c ConcCase, info *ConcInfo) *vstat.Violation {
 		wg.Add(1)
 		go func(g int) {
 			defer wg.Done()
+			defer running.Add(-1)
 			defer func() {
 				if r := recover(); r != nil {
 					fail(vstat.V("blocks:panic", "goroutine %d of [%s] panicked: %v", g, geo, r))
 				}
 			}()
-			var mine []held
+			mine := append([]held(nil), initial[g]...)
 			verify := func(h held, when string) bool {
 				blk := base[offs[h.idx] : offs[h.idx]+int64(c.BS)]
 				for j := range blk {
@@ -131,7 +275,9 @@ func runConcurrent(c ConcCase, info *ConcInfo) *vstat.Violation {
 					fail(vstat.V("blocks:double-allocation", "[%s] goroutine %d %s: block %d that it holds is registered to goroutine %d", geo, g, when, h.idx, owner[h.idx].Load()))
 					return false
 				}
-				if err := b.FreeBlock(h.idx); err != nil {
+				err := b.FreeBlock(h.idx)
+				ops.Add(1)
+				if err != nil {
 					fail(vstat.V("blocks:free-rejected", "[%s] goroutine %d %s: FreeBlock(%d) of its own allocated block failed with %v", geo, g, when, h.idx, err))
 					return false
 				}
@@ -139,16 +285,23 @@ func runConcurrent(c ConcCase, info *ConcInfo) *vstat.Violation {
 			}
 			for it := 0; it < c.Iters && !stop.Load(); it++ {
 				when := fmt.Sprintf("round %d", it)
-				if len(mine) >= c.Hold {
+				if pause.Load() { // the observer holds the workers between two rounds
+					idle.Add(1)
+					<-resume
+				}
+				if len(mine) >= c.Hold || (it == 0 && len(mine) > 0 && g%2 == 0) { // on a reopened allocator every other goroutine begins with a FreeBlock
 					if !release((it*7+g)%len(mine), when) {
 						return
 					}
 				}
-				if a := b.Available(); a < minAvail || a < 0 || a > count {
-					fail(vstat.V("blocks:available", "[%s] goroutine %d %s: Available()=%d is outside [max(0,Count-G*hold)=%d, Count=%d]", geo, g, when, a, max(0, minAvail), count))
-					return
+				if availSeen.Load() {
+					if a := b.Available(); a < minAvail || a < 0 || a > count {
+						fail(vstat.V("blocks:available", "[%s] goroutine %d %s: Available()=%d is outside [max(0,Count-G*hold)=%d, Count=%d]", geo, g, when, a, max(0, minAvail), count))
+						return
+					}
 				}
 				idx, err := b.ArrangeBlock()
+				ops.Add(1)
 				if err != nil {
 					if !isExhausted(err) {
 						fail(vstat.V("blocks:arrange-error", "[%s] goroutine %d %s: ArrangeBlock failed with %v", geo, g, when, err))
@@ -205,7 +358,58 @@ func runConcurrent(c ConcCase, info *ConcInfo) *vstat.Violation {
 			kept[g] = mine
 		}(g)
 	}
+	if c.Late > 0 {
+		info.Late = true
+		wg.Add(1)
+		go func() { // the observer
+			defer wg.Done()
+			released := false
+			release := func() {
+				if !released {
+					released = true
+					pause.Store(false)
+					close(resume)
+				}
+			}
+			defer release()
+			defer func() {
+				if r := recover(); r != nil {
+					fail(vstat.V("blocks:panic", "the first Available() call of [%s] panicked: %v", geo, r))
+				}
+			}()
+			for ops.Load() < int64(c.Late-1) && running.Load() > 0 {
+				runtime.Gosched()
+			}
+			if c.ParkSeg > 0 {
+				pause.Store(true)
+				for idle.Load() < running.Load() { // every worker is waiting between two rounds or has finished
+					runtime.Gosched()
+				}
+				info.Held = running.Load() > 0
+				buf.park = func() { // runs inside the Available() call, on this goroutine
+					info.Parked = true
+					at := ops.Load()
+					release()
+					for ops.Load() < at+int64(max(c.ParkOps, 1)) && running.Load() > 0 {
+						runtime.Gosched()
+					}
+					info.ParkedOps = ops.Load() - at
+				}
+				buf.armed.Store(true)
+			}
+			info.LateRaced = running.Load() > 0
+			info.LateOps = ops.Load()
+			a := b.Available() // the first call in the life of this allocator
+			buf.armed.Store(false)
+			availSeen.Store(true)
+			release()
+			if a < minAvail || a < 0 || a > count {
+				fail(vstat.V("blocks:available", "[%s] the first Available() call, made while the workers were running, returned %d which is outside [max(0,Count-G*hold)=%d, Count=%d]", geo, a, max(0, minAvail), count))
+			}
+		}()
+	}
 	wg.Wait()
+	info.AfterOps = ops.Load() - info.LateOps
 	info.Exhausted = exhausted.Load()
 	info.Arranged = arranged.Load()
 	if first != nil {
